@@ -93,8 +93,11 @@ fn step_group<G: Grp>(rg: &mut Regs<G>, fr: &[Fr; 3], mk: &[BigUint; 3], op: usi
         0 => {
             info.class("op:add");
             mark_consumed(rg, &[a, b], info, true);
-            what = format!("{}[{}] = {}[{}] + {}[{}]", G::NAME, d, G::NAME, a, G::NAME, b);
-            (rg.v[a] + rg.v[b], (&rg.k[a] + &rg.k[b]) % r, false)
+            // one of the publicly reachable operator forms of the addition (plain `+`, or a form of the exposed inner type)
+            let forms: Vec<(&'static str, G::L)> = G::extra_forms(rg.v[a], rg.v[b]).into_iter().filter(|f| f.0.starts_with("add:")).collect();
+            let (fname, val) = if c >= 2 && !forms.is_empty() { forms[(c + d + a) % forms.len()] } else { ("add:a + b", rg.v[a] + rg.v[b]) };
+            what = format!("{}[{}] = {}[{}] + {}[{}]  ({})", G::NAME, d, G::NAME, a, G::NAME, b, &fname[4..]);
+            (val, (&rg.k[a] + &rg.k[b]) % r, false)
         }
         1 => {
             info.class("op:sub");
